@@ -47,7 +47,7 @@ def gen(rng, tier, idx):
     for i in range(n):
         if i == fault_at:
             if mode == "fault":
-                for kind in r.sample(["pop_mismatch", "pop_mismatch", "pop_empty", "wrong_state", "wrong_state"], 5):
+                for kind in r.sample(["pop_mismatch", "pop_mismatch", "pop_empty", "wrong_state", "wrong_state", "outofcpu"], 6):
                     if getattr(g, "fault_" + kind)():
                         g.fault(kind)
                         break
@@ -70,7 +70,9 @@ def gen(rng, tier, idx):
     for a in g.actions:
         if a[1][0] != "O":
             used[a[1]] = used.get(a[1], 0) + 1
-    return {"world": desc, "actions": g.actions, "lint": lint, "faults": g.faults,
+    # the breakdown trace (-b) is one more consumer of the same channels: nesting rules and the lint check at the end are unaffected by it
+    flags = ["-b"] if (("nosv" in models) != ("nanos6" in models) and rng.derive("flags").chance(20)) else []
+    return {"world": desc, "actions": g.actions, "lint": lint, "emuflags": flags, "faults": g.faults,
             "probes": dict(g.probes, **{"pair:" + k: v for k, v in used.items()}),
             "nontrivial": bool(g.faults) or any(True for a in g.actions if a[1][0] != "O")}
 
